@@ -16,7 +16,7 @@ pub fn def() -> CheckDef {
         rule: "case = parent / child (/ grandchild) models: the calling act sits between other acts and, in half of the cases, beside a second branch with its own open interrupt; the child ends completed / error / aborted (decided by the client's answer to the child's interrupt) or the target model is missing; seeded schedule decides how the child's return interleaves with the other activity of the parent. oracles: the calling act is open at every quiescent point before the child's terminal event and is closed exactly once afterwards with the prescribed state and data, the child's inputs equal the call's options, the successor of the calling act starts once and only after it is closed, the parent's terminal event follows the child's, a missing model fails the calling act and the process. non-trivial = a child process really started and ended (or the model was missing); distinct = distinct (scenario hash, schedule hash)",
         level: "exploration",
         assumptions: &["monotone simulated clock", "child ending `skipped` is not reachable through client actions on the child's acts and is not generated", "no storage errors are injected"],
-        probes: &["probe.child_completed", "probe.child_error", "probe.child_aborted", "probe.missing_model", "probe.grandchild", "probe.parent_busy_while_child_runs", "probe.parent_event_delivered_first", "probe.child_failed_without_code"],
+        probes: &["probe.child_completed", "probe.child_error", "probe.child_aborted", "probe.missing_model", "probe.grandchild", "probe.parent_busy_while_child_runs", "probe.parent_event_delivered_first", "probe.child_failed_without_code", "probe.child_error_caught_by_the_call"],
         quick_cases: 5000,
         no_shrink: &[],
     }
@@ -36,7 +36,13 @@ fn gen_scenario(rng: &mut vsim::rng::Rng) -> Scenario {
     let depth3 = rng.below(3) == 0;
     let mut opts = BTreeMap::new();
     opts.insert("x".to_string(), json!(xval));
-    let call = MAct { id: "call".into(), key: "callkey".into(), kind: ActKind::Subflow { to: if missing { "nomodel".into() } else { "child".into() }, options: opts }, ..Default::default() };
+    let mut call = MAct { id: "call".into(), key: "callkey".into(), kind: ActKind::Subflow { to: if missing { "nomodel".into() } else { "child".into() }, options: opts }, ..Default::default() };
+    // sometimes the calling act has a catch: a child that fails is then taken by it - the act fails, is revived, runs the
+    // steps of the catch and completes; the parent goes on as if nothing had happened
+    if rng.below(6) == 0 {
+        let on = if rng.below(2) == 0 { None } else { Some("child_err".to_string()) };
+        call.catches.push(MCatch { on, steps: vec![MStep { id: "call_caught".into(), acts: vec![msg("call_caught_m", "call_caught_key")], ..Default::default() }] });
+    }
     let mut acts = vec![];
     if rng.below(2) == 0 {
         acts.push(irq("pa0", "pk0"));
@@ -142,6 +148,15 @@ pub fn case(ctx: &mut CaseCtx) -> CaseOut {
         if !model_exists {
             ctx.count("probe.missing_model", 1);
             let st: Vec<String> = closes.iter().map(|t| t.new.clone()).collect();
+            // a catch-all on the calling act takes this failure as well (it has no code, a catch for a code does not)
+            let catch_all = find_act(&sc.models, pnid).map(|a| a.catches.iter().any(|c| c.on.is_none())).unwrap_or(false);
+            if catch_all {
+                if st != vec!["error".to_string(), "completed".to_string()] {
+                    v.push(Violation::new("C15", "call_with_catch_not_closed_as_caught", json!({"closes": st, "level": depth, "missing_model": true}), format!("the calling act {} names the missing model `{}` and declares a catch-all: it was closed {:?} instead of failing once and completing after its catch steps", pnid, to, st)));
+                    break;
+                }
+                continue;
+            }
             if st != vec!["error".to_string()] {
                 v.push(Violation::new("C15", "missing_model_not_failed", json!({"closes": st}), format!("the calling act {} names the missing model `{}`: it was closed {:?} instead of failing once", pnid, to, st)));
                 break;
@@ -211,7 +226,21 @@ pub fn case(ctx: &mut CaseCtx) -> CaseOut {
             let parent_end = term_event(ppid);
             let parent_ended_first = parent_end.map(|e| e.seq < cend.seq).unwrap_or(false);
             let st: Vec<String> = closes.iter().map(|t| t.new.clone()).collect();
-            if !parent_ended_first {
+            // a catch on the calling act that matches the child's error: fails, is revived, completes after its steps
+            let child_code = cend.inputs.get("ecode").and_then(|x| x.as_str()).unwrap_or("").to_string();
+            let caught = want == "error" && find_act(&sc.models, pnid).map(|a| a.catches.iter().any(|c| c.on.is_none() || c.on.as_deref() == Some(child_code.as_str()))).unwrap_or(false);
+            if caught && !parent_ended_first {
+                ctx.count("probe.child_error_caught_by_the_call", 1);
+                if st != vec!["error".to_string(), "completed".to_string()] {
+                    v.push(Violation::new("C15", "call_with_catch_not_closed_as_caught", json!({"closes": st, "level": depth}), format!("child process {} failed with `{}` and the calling act {} declares a matching catch: the act was closed {:?} instead of failing once and completing after its catch steps", child.pid, child_code, pnid, st)));
+                    break;
+                }
+                let ran = rec.trans.iter().filter(|t| t.nid == "call_caught" && t.new == "completed").count();
+                if ran != 1 {
+                    v.push(Violation::new("C15", "call_catch_steps_not_run_once", json!({"runs": ran, "level": depth}), format!("the catch of the calling act {} took the child's error: its step ran {} times", pnid, ran)));
+                    break;
+                }
+            } else if !parent_ended_first {
                 if st.len() != 1 || st[0] != want {
                     v.push(Violation::new("C15", "call_not_closed_once_with_child_state", json!({"child": want, "closes": st, "level": depth}), format!("child process {} ended {} ({}): the calling act {} was closed {:?} instead of exactly once as {}", child.pid, cend.state, cend.via, pnid, st, want)));
                     break;
